@@ -244,6 +244,11 @@ pub fn run(ctx: &Ctx) -> i32 {
     let n3 = ["a", "b", "c"];
     let t = sweep(ctx, &n3, 4, &c);
     bounds.push(format!("<=4 components over {{a,b,c}}: {} ordered pairs", t));
+    // names where one is a textual prefix of another (a / ab / aé): string-level instead of
+    // component-level comparisons inside relative() only show up on such names
+    let npre = ["a", "ab", "aé", "b"];
+    let t = sweep(ctx, &npre, ctx.tier.pick(3, 4), &c);
+    bounds.push(format!("<={} components over {{a,ab,aé,b}} (prefix-related names): {} ordered pairs", ctx.tier.pick(3, 4), t));
     if ctx.tier == Tier::Thorough {
         let t = sweep(ctx, &["a", "b"], 5, &c);
         bounds.push(format!("<=5 components over {{a,b}}: {} ordered pairs", t));
